@@ -123,6 +123,57 @@ func sleepCtx(d time.Duration, ctxKind string, dl time.Duration, mode int) Scena
 	}}
 }
 
+// sleepTwice: a SleepContext that is ended by its context at the very moment its time is up (both
+// are ready), then a plain SleepContext(d): whatever the first call left behind, the second one
+// returns nil only after d.
+func sleepTwice(d time.Duration, mode int) Scenario {
+	return Scenario{fmt.Sprintf("sleep/twice/d=%v/timerMode=%d", d, mode), mode, func() {
+		for _, cancelAt := range []time.Duration{d, d / 2} {
+			ctx, cancel := context.WithCancel(context.Background())
+			go func() {
+				hx.Sleep(cancelAt)
+				cancel()
+			}()
+			_ = xtime.SleepContext(ctx, d)
+			cancel()
+			hx.Sleep(3 * d) // let every timer of the first call come due
+			start := hx.Now()
+			err := xtime.SleepContext(context.Background(), d)
+			if el := hx.Now() - start; err != nil || el < d {
+				hx.Fail("sleep/returned-early", "a SleepContext(%v) that follows one ended by its context returned %v after %v", d, err, el)
+			}
+		}
+		hx.Outcome("ok")
+	}}
+}
+
+// lazyConsumer: the consumer reads a tick only every 3 periods (the ticker's callbacks may run late,
+// ticks it cannot deliver are dropped); ticks it does receive are still d - jitter apart, and Stop
+// returns although nobody is reading.
+func lazyConsumer(d, jitter time.Duration, n int, mode int) Scenario {
+	return Scenario{fmt.Sprintf("ticker/lazy-consumer/d=%v/jitter=%v/ticks=%d/timerMode=%d", d, jitter, n, mode), mode, func() {
+		t := xtime.NewJitterTicker(d, jitter)
+		var last time.Time
+		for i := 0; i < n; i++ {
+			hx.Sleep(3 * d)
+			tick := <-t.C
+			if !last.IsZero() && tick.Sub(last) < d-jitter {
+				hx.Fail("ticker/ticks-too-close", "consecutive ticks %v apart, less than d-jitter = %v", tick.Sub(last), d-jitter)
+			}
+			last = tick
+		}
+		hx.Sleep(3 * d) // ticks pile up against the full channel
+		t.Stop()        // (a Stop that cannot return shows as a deadlock)
+		sends := hx.Sends(t.C)
+		hx.Sleep(4 * d)
+		hx.Quiesce()
+		if s := hx.Sends(t.C); s != sends {
+			hx.Fail("ticker/tick-after-stop", "%d tick(s) were sent on the channel after Stop had returned", s-sends)
+		}
+		hx.Outcome("ok")
+	}}
+}
+
 // pastDeadline is a context of the caller's own making: it reports a deadline and never ends.
 type pastDeadline struct {
 	context.Context
@@ -259,6 +310,8 @@ func All() []Scenario {
 		ticker(8*ms, 6*ms, 2, "reset", 2*ms, 0, 0),
 		ticker(8*ms, 6*ms, 2, "reset", 3*ms, 2*ms, 1),
 		extreme(),
+		sleepTwice(10*ms, 0), sleepTwice(10*ms, 1),
+		lazyConsumer(4*ms, 0, 3, 0), lazyConsumer(4*ms, 1*ms, 2, 1),
 		ticker(4*ms, 1*ms, 3, "stop", 0, 0, 0),
 		ticker(4*ms, 3*ms, 2, "stop", 0, 0, 1),
 	)
